@@ -60,6 +60,13 @@ Definition same_set (a b : list nat) : bool := subset a b && subset b a && Nat.e
 Fixpoint nodup_b (l : list nat) : bool :=
   match l with [] => true | x :: tl => negb (nmem x tl) && nodup_b tl end.
 
+Definition all_msgs (c : scase) : list msg :=
+  c_self c ++ flat_map (fun p => match p with S_load _ l => l | _ => [] end) (c_threads c).
+(* exit signals are consumed by the actor loop without a behaviour callback: the harness cannot see
+   their consumption, so they are left out when the handled lists are compared *)
+Definition is_exit_id (c : scase) (i : nat) : bool :=
+  existsb (fun m => Nat.eqb (mid m) i && match mbeh m with BExit _ => true | _ => false end) (all_msgs c).
+
 Definition case_cfg (c : scase) : cfg := init_cfg (c_named c) (c_lim c) (c_fb c) (c_self c) (c_initok c) (c_threads c).
 
 (* model = implementation: every step's next hook, state word and thread count, and the final
@@ -69,7 +76,7 @@ Definition corr_ok (c : scase) : bool :=
   | None => false
   | Some f =>
       quiescent f
-      && nlist_eqb (handled (sh f)) (c_handled c)
+      && nlist_eqb (filter (fun i => negb (is_exit_id c i)) (handled (sh f))) (c_handled c)
       && same_set (oks (sh f)) (c_oks c) && same_set (errs (sh f)) (c_errs c) && same_set (fbs (sh f)) (c_fbs c)
       && Nat.eqb (terms (sh f)) (c_terms c)
       && Z.eqb (match treason (sh f) with Some r => r | None => 0%Z end) (c_reason c)
@@ -103,8 +110,6 @@ Fixpoint nothing_after_term (seen : bool) (ev : list (nat * nat)) : bool :=
       | _ => negb seen && nothing_after_term seen tl
       end
   end.
-Definition all_msgs (c : scase) : list msg :=
-  c_self c ++ flat_map (fun p => match p with S_load _ l => l | _ => [] end) (c_threads c).
 Definition has_killer (c : scase) : bool := existsb (fun p => match p with K_load => true | _ => false end) (c_threads c).
 Definition handled_beh (c : scase) (f : beh -> bool) : bool :=
   existsb (fun m => nmem (mid m) (c_handled c) && f (mbeh m)) (all_msgs c).
@@ -113,7 +118,8 @@ Definition reason_ok (c : scase) : bool :=
   if Nat.eqb (c_terms c) 0 then Z.eqb r 0
   else if Z.eqb r rkill then has_killer c
   else if Z.eqb r rpanic then handled_beh c (fun b => match b with BPanic => true | _ => false end)
-  else handled_beh c (fun b => match b with BErr e => Z.eqb e r | _ => false end).
+  else handled_beh c (fun b => match b with BErr e => Z.eqb e r | _ => false end)
+       || existsb (fun m => nmem (mid m) (c_oks c) && match mbeh m with BExit e => Z.eqb e r | _ => false end) (all_msgs c).
 Definition spec_c05 (c : scase) : bool :=
   Nat.leb (c_terms c) 1
   && Nat.eqb (length (filter (fun e => Nat.eqb (fst e) 3) (c_events c))) (c_terms c)
